@@ -36,16 +36,26 @@ func c30DumpRunner(r *interp.Runner) string {
 	d := &c30Dumper{seen: map[uintptr]bool{}}
 	v := reflect.ValueOf(r).Elem()
 	t := v.Type()
+	// ident gives the dynamic type and address of a stream field (an
+	// interface, or a plain *os.File for stdin).
 	ident := func(name string) (string, uintptr) {
 		f := v.FieldByName(name)
-		if !f.IsValid() || f.Kind() != reflect.Interface || f.IsNil() {
-			return "nil", 0
+		if !f.IsValid() {
+			return "missing", 0
 		}
-		e := f.Elem()
-		if e.Kind() == reflect.Pointer {
-			return e.Type().String(), e.Pointer()
+		if f.Kind() == reflect.Interface {
+			if f.IsNil() {
+				return "nil", 0
+			}
+			f = f.Elem()
 		}
-		return e.Type().String(), 0
+		if f.Kind() == reflect.Pointer {
+			if f.IsNil() {
+				return "nil", 0
+			}
+			return f.Type().String(), f.Pointer()
+		}
+		return f.Type().String(), 0
 	}
 	for i := 0; i < t.NumField(); i++ {
 		name := t.Field(i).Name
